@@ -136,10 +136,10 @@ pub fn fault_sites() -> Vec<(String, Step)> {
                 add(format!("{pre}.asn.{o}.f{f}:div0"), Step::new(&format!("{pre}.asn")).s("o", o).i("f", f).i("d", bigr).i("b", zero));
             }
             for t in 0..nty {
-                for f in [0, 1, 4] {
+                for f in [0, 1, 4, 5, 7] {
                     add(format!("{pre}.sc.{o}.t{t}.f{f}:div0-scalar"), Step::new(&format!("{pre}.sc")).s("o", o).i("t", t).i("k", 0).i("f", f).i("d", bigr).i("a", bigr));
                 }
-                for f in [2, 3] {
+                for f in [2, 3, 6, 8] {
                     add(format!("{pre}.sc.{o}.t{t}.f{f}:div0-big"), Step::new(&format!("{pre}.sc")).s("o", o).i("t", t).i("k", 77).i("f", f).i("d", 0).i("a", zero));
                 }
             }
@@ -162,7 +162,7 @@ pub fn fault_sites() -> Vec<(String, Step)> {
         // negative shift amounts: 6 signed types, all forms
         for op in ["shl", "shr"] {
             for t in 6..12 {
-                for f in 0..5 {
+                for f in 0..6 {
                     add(format!("{pre}.{op}.t{t}.f{f}:negshift"), Step::new(&format!("{pre}.{op}")).i("t", t).i("k", -1).i("f", f).i("mv", f % 2).i("d", bigr).i("a", bigr));
                     add(format!("{pre}.{op}.t{t}.f{f}.zero:negshift"), Step::new(&format!("{pre}.{op}")).i("t", t).i("k", -64).i("f", f).i("d", zero).i("a", zero));
                 }
@@ -224,13 +224,13 @@ pub fn fault_sites() -> Vec<(String, Step)> {
         add(format!("u.asn.sub.f{f}:underflow"), Step::new("u.asn").s("o", "sub").i("f", f).i("d", SMALL_U).i("b", BIG_U));
     }
     for t in 0..6 {
-        for f in [0, 1, 4] {
+        for f in [0, 1, 4, 5, 7] {
             // zero register minus a non-zero scalar
             add(format!("u.sc.sub.t{t}.f{f}:underflow-scalar"), Step::new("u.sc").s("o", "sub").i("t", t).i("k", 200).i("f", f).i("d", ZERO_U).i("a", ZERO_U));
         }
-        for f in [2, 3] {
+        for f in [2, 3, 6, 8] {
             // scalar minus a register that does not fit the scalar type at all
-            add(format!("u.sc.sub.t{t}.f{f}:underflow-big"), Step::new("u.sc").s("o", "sub").i("t", t).i("k", 5).i("f", f).i("mv", f - 2).i("d", 0).i("a", 2));
+            add(format!("u.sc.sub.t{t}.f{f}:underflow-big"), Step::new("u.sc").s("o", "sub").i("t", t).i("k", 5).i("f", f).i("mv", f % 2).i("d", 0).i("a", 2));
         }
     }
     add("u.dec.zero:underflow".into(), Step::new("u.dec").i("d", ZERO_U));
